@@ -163,6 +163,9 @@ pub struct Scenario {
     pub max_points: u32,
     #[serde(default)]
     pub inject: Vec<InjectSpec>,
+    /// per-link latency overrides (from, to, rounds)
+    #[serde(default)]
+    pub link_lat: Vec<(Addr, Addr, i32)>,
 }
 
 impl Scenario {
@@ -192,6 +195,7 @@ impl Scenario {
             diverge: None,
             max_points: u32::MAX,
             inject: Vec::new(),
+            link_lat: Vec::new(),
         }
     }
 
